@@ -28,7 +28,14 @@ SCEN_OBJS = $(patsubst %,$(BUILD)/s-%.o,$(SCEN_NAMES)) \
 REPO_DEPS = $(wildcard $(REPO)/src/*.c $(REPO)/src/*.h $(REPO)/include/urcu/*.h \
 	$(REPO)/include/urcu/*/*.h $(REPO)/include/*.h)
 
-all: $(BUILD)/usim
+all: $(BUILD)/usim $(BUILD)/uat-native-x86 $(BUILD)/uat-native-builtins
+
+# hook-free, uninstrumented, optimised builds of the uatomic value-semantics sweep (C20), one per implementation
+NATFLAGS = -O2 -g -fno-strict-aliasing -Wall -Wno-type-limits -D_GNU_SOURCE -include $(REPO)/include/config.h -I$(REPO)/include
+$(BUILD)/uat-native-x86: native/uatomic_native.c $(REPO_DEPS) | $(BUILD)/.dir
+	$(CC) $(NATFLAGS) $< -o $@
+$(BUILD)/uat-native-builtins: native/uatomic_native.c $(REPO_DEPS) | $(BUILD)/.dir
+	$(CC) $(NATFLAGS) -DCONFIG_RCU_USE_ATOMIC_BUILTINS $< -o $@
 
 $(RT_OBJS) $(URCU_OBJS) $(SCEN_OBJS): | $(BUILD)/.dir
 $(BUILD)/.dir:
